@@ -24,6 +24,7 @@ META = {
 META["technique"] = "static analysis: dominance / provenance / typestate rules over rustc MIR facts (rustc_private driver) + path-partitioned abstract interpretation in a linear-inequality domain (view-length balance; Fourier-Motzkin emptiness, no execution, no external solver)"
 META["explanation"] += " R15.5 a Reset emitted by the Head / Tail translators is cut to the limit (truncate / take / local cutting helper with a limit-dependent argument, or skip relative to the skipped vector's own length; a skip position computed from the previous length in a length-changing arm is a violation)."
 META["explanation"] += " R15.6 (balance.py, the same abstract interpretation as R09.12): after every emitted diff of every path of every arm the running length of the consumer's view is at most L in every feasible case; where it decides an arm, the syntactic R15.1 is subordinate to it. R09.14 (no untranslated forward of a source item) is evaluated here as well."
+META["explanation"] += ' R15.7 the local helper Tail cuts whole vectors with returns the part after the split position on every path (split_at(..).1, the value split_off returns, skip) - never what split_off / truncate left in place.'
 
 
 def run(ctx):
@@ -44,6 +45,7 @@ def run(ctx):
         r15_5(ctx, a)
     ctx.floor("R15.1", n, 22)
     r15_2(ctx)
+    r15_7(ctx, ads)
     # the bound also rests on the Head/Tail structural rules and on the order in which buffered diffs leave
     from . import groups, c09 as _c09
     for _n in ("head", "tail"):
@@ -297,3 +299,60 @@ def r15_5(ctx, a):
             else:
                 ctx.undecided("R15.5", f, key, where, "payload `%s` not recognised" % fmt(e, 4))
     ctx.floor("R15.5", n, 1)
+
+
+
+def r15_7(ctx, ads):
+    """the local helper Tail cuts whole vectors with (initial values, Reset, Append) keeps the LAST items: on every return the result is
+    the part after the split position (`split_at(..).1`, the value `split_off` returns, `skip(..)`, or the vector after popping
+    from the front) - never the vector that `split_off` / `truncate` / `take` left behind, which is the first items."""
+    F = ctx.facts
+    a = ads.get("tail")
+    if a is None or a.translator is None:
+        return
+    mod = a.translator.path.rsplit("::", 1)[0]
+    n = 0
+    for g in F.find(crate=UT):
+        sig = g.raw.get("sig") or {}
+        ins = sig.get("inputs") or []
+        if not g.built or g.kind == "closure" or g.file != a.translator.file:
+            continue
+        if len(ins) != 2 or not ins[0].startswith("imbl::GenericVector<") or ins[1] != "usize" or not (sig.get("output") or "").startswith("imbl::GenericVector<"):
+            continue
+        b = g.built
+        front_cut = [blk for blk, t in b.calls(r"GenericVector::<.*>::(split_off|truncate|pop_back)$") if t["args"] and strip(b.expr_of_op(t["args"][0]))[0] == "param"]
+        for loc, kind, payload in blocks_assigning_ret(b):
+            e = b.expr_of_rv(payload, 8, (), loc) if kind == "assign" else b.expr_of_call(payload, 8, (), loc)
+            x = strip(e, through_calls=False)
+            where = b.line_at(loc)
+            n += 1
+            verdict = None
+            why = ""
+            sa = find_all(e, lambda y: y[0] == "call" and ecall_matches(y, r"GenericVector::<.*>::split_at$"))
+            if sa:
+                half = x[2] if x[0] == "field" else None
+                if half == "1":
+                    verdict, why = True, "the second half of split_at"
+                elif half == "0":
+                    verdict, why = False, "the FIRST half of split_at"
+            elif x[0] == "call" and ecall_matches(x, r"GenericVector::<.*>::(split_off|skip)$"):
+                verdict, why = True, "the part after the position (%s)" % x[1].split("::")[-1]
+            elif x[0] == "call" and ecall_matches(x, r"GenericVector::<.*>::take$"):
+                verdict, why = False, "`take`, i.e. the first items"
+            elif x[0] == "param" and x[1] == 1:
+                cut = [c for c in front_cut if b.dominates(c, loc[0]) or c in b.reachable_from(0) and loc[0] in b.reachable_from(c)]
+                if cut:
+                    verdict, why = False, "what `%s` left in place, i.e. the first items" % (b.term(cut[0]).get("callee") or "").split("::")[-1]
+                else:
+                    verdict, why = True, "the vector itself (nothing cut from its end on this path)"
+            elif x[0] == "call" and ecall_matches(x, r"GenericVector::<.*>::new$"):
+                verdict, why = True, "an empty vector"
+            if verdict is None:
+                ctx.undecided("R15.7", g, "cut-keeps-the-last-items", where, "returned value not recognised: %s" % fmt(e, 3))
+            elif verdict:
+                ctx.holds("R15.7", g, "cut-keeps-the-last-items", where, "returns %s" % why)
+            else:
+                ctx.violated("R15.7", g, "cut-keeps-the-last-items", where,
+                             "`%s` (the helper Tail cuts initial values / Reset / Append payloads with) returns %s: the view then holds the first `len - limit` items - more than the limit whenever len > 2 * limit - instead of the last `limit`" % (g.path, why))
+    if n == 0:
+        ctx.holds("R15.7", None, "cut-keeps-the-last-items", None, "Tail has no local cutting helper (cuts are made in place and decided by R15.5 / the balance analysis)")
